@@ -8,6 +8,7 @@ import (
 	rt "github.com/taskctl/taskctl/internal/verifrt"
 	"github.com/taskctl/taskctl/pkg/executor"
 	"github.com/taskctl/taskctl/pkg/task"
+	"github.com/taskctl/taskctl/pkg/variables"
 	"mvdan.cc/sh/v3/interp"
 )
 
@@ -48,7 +49,12 @@ func c12Execute(e *executor.DefaultExecutor, ctx context.Context, job *executor.
 }
 
 // VerifC12Cancel: k runs (task i has 1 + i%2 commands and, for i == 1, a before hook), cancel called `times` times.
-func VerifC12Cancel(k, times, preempt int) {
+// cthreads: number of threads calling Cancel concurrently (each `times` times); wind = 1 gives the
+// tasks an execution context whose after command runs while the task winds down.
+func VerifC12Cancel(k, times, preempt, cthreads, wind int) {
+	if cthreads == 0 {
+		cthreads = 1
+	}
 	if preempt >= 9 {
 		preempt = -1 // unbounded
 	}
@@ -56,7 +62,8 @@ func VerifC12Cancel(k, times, preempt int) {
 	rt.Redirect("(*github.com/taskctl/taskctl/pkg/executor.DefaultExecutor).Execute", c12Execute)
 	rt.Redirect("github.com/taskctl/taskctl/pkg/executor.NewDefaultExecutor", vNewExecutor)
 	rt.Redirect("github.com/taskctl/taskctl/pkg/utils.RenderString", vRender)
-	r, err := NewTaskRunner()
+	ectx := NewExecutionContext(nil, "", variables.NewVariables(), nil, nil, nil, []string{"ctx-after"})
+	r, err := NewTaskRunner(WithContexts(map[string]*ExecutionContext{"ctx": ectx}))
 	rt.Assert(err == nil, "C12.runner-created")
 	c12CancelReturned = false
 	c12Started = 0
@@ -80,6 +87,9 @@ func VerifC12Cancel(k, times, preempt int) {
 			t.Before = []string{"before-1"}
 			c12Owner["before-1"] = i
 		}
+		if wind == 1 {
+			t.Context = "ctx"
+		}
 		tasks[i] = t
 	}
 	for i := 0; i < k; i++ {
@@ -90,12 +100,14 @@ func VerifC12Cancel(k, times, preempt int) {
 			c12Finished[i] = true
 		})
 	}
-	rt.Spawn("cancel", func() {
-		for n := 0; n < times; n++ {
-			r.Cancel()
-			c12CancelReturned = true
-		}
-	})
+	for c := 0; c < cthreads; c++ {
+		rt.Spawn("cancel-"+vDigits[c], func() {
+			for n := 0; n < times; n++ {
+				r.Cancel()
+				c12CancelReturned = true
+			}
+		})
+	}
 	rt.WaitThreads()
 	rt.Cover("C12.all-threads-returned")
 	for i := 0; i < k; i++ {
